@@ -907,7 +907,9 @@ func runWorld(t *testing.T, r *vh.Run, x *world, worldNo int, budget int) int {
 		case "helper-workloads":
 			arg := randIDs(rng, ids, true, true)
 			fk := ""
-			if failing {
+			// with several ids a failing attempt makes doUnlockAll release the locks taken so far in
+			// Go map order (len(order) != len(locks)): not modelled, and no operation passes several ids
+			if failing && len(uniqStrs(arg)) == 1 {
 				fk = "clock_" + pick(rng, arg)
 			}
 			helperWls(arg, rng(5) == 0, fk, nil)
